@@ -79,7 +79,7 @@ class KernelGuard:
             d = np.asarray(delays)
             need("fold", len(d) >= nchans and (nchans == 0 or (d[:nchans].min() >= 0 and d[:nchans].max() <= maxdelay)), "delays outside [0, maxdelay]")
             need("fold", nchans * nsamps <= len(inarray), "reads past the block")
-            need("fold", len(fold_ar) >= nbins * nints * nsubs and len(count_ar) >= nbins * nints * nsubs, "cube smaller than nbins*nints*nsubs")
+            need("fold", len(fold_ar) >= nbins * nints * nsubs, "cube smaller than nbins*nints*nsubs")  # count_ar's layout is the kernel's own business
             n = nsamps - maxdelay
             need("fold", n <= 0 or (index >= 0 and index + n <= total_nsamps),
                  f"samples [{index},{index + n}) of a fold declared {total_nsamps} samples long: sub-integration index would reach {int((index + n - 1) // (total_nsamps / nints)) if n > 0 else 0} of {nints}")
